@@ -38,7 +38,8 @@ ANCHORS = ['recursiveloader:ManifestRecursiveLoader.save_manifests',
 REQUIRED = ['recursiveloader:ManifestRecursiveLoader.save_manifests',
             'presave_phases_audited', 'saves_audited', 'conservation_checked',
             'failing_updates', 'cli_histories', 'cli_multi_histories',
-            'histories_in_other_tz', 'histories_with_profile', 'adopt_cases']
+            'histories_in_other_tz', 'histories_with_profile', 'adopt_cases',
+            'createfault_fired', 'dangling_cases']
 ASSUMPTIONS = ['writes by child processes are invisible to the audit hook; the '
                'snapshot comparison covers them',
                '"Manifest file" = a file named Manifest[.gz|.bz2|.lzma|.xz] or referenced '
@@ -57,7 +58,7 @@ PER_UNIT = 15
 def units(tier, seed):
     return [{'k': 'gen', 'i': i, 'n': PER_UNIT} for i in range(N[tier] // PER_UNIT)] + \
         [{'k': 'multi', 'i': i, 'n': 6} for i in range(4 if tier == 'quick' else 100)] + \
-        [{'k': 'adopt'}]
+        [{'k': 'adopt'}, {'k': 'createfault'}, {'k': 'dangling'}]
 
 
 def setup_worker(ctx):
@@ -676,6 +677,162 @@ def exec_adopt(ctx, case):
                     case['profile'], rc, case['listed'], sorted(lost)[:3]), case)
 
 
+def exec_createfault(ctx, case):
+    """`gemato create` (and a loader opened with allow_create) over a tree that already
+    has Manifests, with one injected I/O error: either the command fails and nothing
+    was written, or the DIST / IGNORE lines are still there."""
+    from gemato import cli as gcli
+    with common.Scratch('vf-c10f-') as d:
+        root = os.path.join(d, 't')
+        os.makedirs(os.path.join(root, 'sub'))
+        os.makedirs(os.path.join(root, 'local'))
+        files = {'a': b'1', 'sub/b': b'22', 'local/secret.txt': b'333'}
+        for pth, data in files.items():
+            with open(os.path.join(root, pth), 'wb') as f:
+                f.write(data)
+        sub = [mtext.file_entry('DATA', 'b', b'stale', ['SHA256']),
+               {'tag': 'DIST', 'path': 'sub-1.tar', 'size': 7, 'sums': {'MD5': 'ef' * 16}}]
+        stext = mtext.render(sub).encode()
+        with open(os.path.join(root, 'sub', 'Manifest'), 'wb') as f:
+            f.write(stext)
+        top = [mtext.file_entry('DATA', 'a', b'1', ['SHA256']),
+               mtext.file_entry('MANIFEST', 'sub/Manifest', stext, ['SHA256']),
+               {'tag': 'IGNORE', 'path': 'local'},
+               {'tag': 'DIST', 'path': 'd.tar', 'size': 1, 'sums': {'MD5': 'ab' * 16}},
+               {'tag': 'TIMESTAMP', 'ts': '2019-03-04T10:00:00Z'}]
+        with open(os.path.join(root, 'Manifest'), 'w') as f:
+            f.write(mtext.render(top))
+        snap0 = gtree.snapshot(root)
+        mans0 = manifest_state(root)
+        keep0 = lines_of(mans0, 'DIST') + lines_of(mans0, 'IGNORE') + \
+            lines_of(mans0, 'TIMESTAMP')
+        ctx.case(sig=('createfault', case['api'], tuple(case['fault'])), case=case,
+                 klass='createfault')
+        ctx.count('createfault_cases')
+        fp = failpoints.Failpoints(root, tuple(case['fault'][:2]), case['fault'][2])
+        rc = None
+        from gemato.recursiveloader import ManifestRecursiveLoader as L
+        orig_save = L.save_manifests
+        entered = []
+
+        def save_manifests(loader, *a, **kw):
+            entered.append(1)
+            return orig_save(loader, *a, **kw)
+        L.save_manifests = save_manifests
+        with audit.Recording(root) as rec:
+            try:
+                with fp:
+                    if case['api'] == 'cli':
+                        try:
+                            rc = gcli.main(['gemato', 'create', '--hashes', 'SHA256',
+                                            root])
+                        except SystemExit:
+                            rc = 'exit'
+                    else:
+                        from gemato.recursiveloader import ManifestRecursiveLoader
+                        m = ManifestRecursiveLoader(os.path.join(root, 'Manifest'),
+                                                    verify_openpgp=False,
+                                                    hashes=['SHA256'], allow_create=True)
+                        m.update_entries_for_directory('')
+                        m.save_manifests()
+                        rc = 0
+            except Exception as exc:
+                rc = exc
+            finally:
+                L.save_manifests = orig_save
+        if fp.fired is None:
+            ctx.count('createfault_not_reached')
+        else:
+            ctx.count('createfault_fired')
+        if rc != 0:
+            snap1 = gtree.snapshot(root)
+            if entered:
+                # (a fault that hits the save step itself may leave it half done)
+                ctx.count('createfault_during_save')
+            elif snap1 != snap0 and fp.fired is not None:
+                ctx.violation('failed-create-wrote', 'create failed (%r) after the '
+                              'injected %s but the tree changed' % (rc, fp.fired), case)
+            return
+        mans1 = manifest_state(root)
+        keep1 = lines_of(mans1, 'DIST') + lines_of(mans1, 'IGNORE') + \
+            lines_of(mans1, 'TIMESTAMP')
+        lost = keep0 - keep1
+        if lost:
+            ctx.violation('create-over-existing-lost-lines', 'create returned 0 (injected '
+                          'fault: %s) and lost %r' % (fp.fired, sorted(lost)[:3]), case)
+        elif any(mtext.comp_prefix(p, 'local') for p in file_entries(mans1)):
+            ctx.violation('create-over-existing-lost-lines', 'create returned 0 (injected '
+                          'fault: %s) and lists the IGNOREd local/' % (fp.fired,), case)
+
+
+def run_createfault(u, ctx):
+    for api in ('cli', 'lib'):
+        for site in ('open', 'os.open', 'read', 'text-read', 'os.stat', 'os.fstat'):
+            for idx in range(4):
+                for err in (5, 13):
+                    exec_createfault(ctx, {'kind': 'createfault', 'api': api,
+                                           'fault': [site, idx, err]})
+
+
+def exec_dangling(ctx, case):
+    """A dangling symlink that has a Manifest name sits where recompression would put
+    a Manifest: nothing may be written through it."""
+    from gemato import cli as gcli
+    with common.Scratch('vf-c10d-') as d:
+        root = os.path.join(d, 't')
+        os.makedirs(os.path.join(root, 'a', 'b'))
+        for pth, data in (('a/f', b'1'), ('a/b/g', b'22'), ('top', b'3')):
+            with open(os.path.join(root, pth), 'wb') as f:
+                f.write(data)
+        plain = case['have'] == 'plain'
+        atext = mtext.render([mtext.file_entry('DATA', 'f', b'1', ['SHA256']),
+                              mtext.file_entry('DATA', 'b/g', b'stale', ['SHA256'])])
+        adata = atext.encode() if plain else mtext.compress('gz', atext.encode())
+        aname = 'a/Manifest' if plain else 'a/Manifest.gz'
+        with open(os.path.join(root, aname), 'wb') as f:
+            f.write(adata)
+        with open(os.path.join(root, 'Manifest'), 'w') as f:
+            f.write(mtext.render([mtext.file_entry('DATA', 'top', b'3', ['SHA256']),
+                                  mtext.file_entry('MANIFEST', aname, adata,
+                                                   ['SHA256'])]))
+        # the name the Manifest would be renamed to is a link to a file that does
+        # not exist (inside the tree, or outside it)
+        lname = 'a/Manifest.gz' if plain else 'a/Manifest'
+        target = {'in': os.path.join(root, 'a', 'notes.txt'),
+                  'rel': 'notes.txt',
+                  'out': os.path.join(d, 'outside-notes.txt')}[case['target']]
+        os.symlink(target, os.path.join(root, lname))
+        snap0 = gtree.snapshot(root)
+        ctx.case(sig=('dangling', case['have'], case['target'], case['scope']),
+                 case=case, klass='dangling')
+        ctx.count('dangling_cases')
+        wm = '0' if plain else '1000000'
+        argv = ['gemato', 'update', '--hashes', 'SHA256', '-c', wm, '-C', 'gz',
+                os.path.join(root, case['scope']) if case['scope'] else root]
+        try:
+            rc = gcli.main(argv)
+        except SystemExit:
+            rc = 'exit'
+        except Exception as exc:
+            rc = exc
+        made = [p for p in (os.path.join(root, 'a', 'notes.txt'),
+                            os.path.join(d, 'outside-notes.txt')) if os.path.lexists(p)]
+        if made:
+            ctx.violation('non-manifest-file-created:through-dangling-link',
+                          '`gemato update -c %s %s` (rc %r) created %r through the '
+                          'dangling link %s' % (wm, case['scope'] or '.', rc,
+                                                [os.path.basename(p) for p in made],
+                                                lname), case)
+
+
+def run_dangling(u, ctx):
+    for have in ('plain', 'gz'):
+        for target in ('in', 'rel', 'out'):
+            for scope in ('a/b', 'a', ''):
+                exec_dangling(ctx, {'kind': 'dangling', 'have': have, 'target': target,
+                                    'scope': scope})
+
+
 def run_adopt(u, ctx):
     n = 0
     for listed in ('manifest', 'data', 'misc', 'none'):
@@ -692,6 +849,10 @@ def run_adopt(u, ctx):
 def run_unit(u, ctx):
     if u.get('k') == 'adopt':
         return run_adopt(u, ctx)
+    if u.get('k') == 'createfault':
+        return run_createfault(u, ctx)
+    if u.get('k') == 'dangling':
+        return run_dangling(u, ctx)
     if u.get('k') == 'multi':
         for j in range(u['n']):
             run_multi(ctx, common.rng_for(ctx.seed, ID, 'multi', u['i'], j),
@@ -743,6 +904,10 @@ def judge_wrapper(ctx, root, jcase, case):
 def replay(case, ctx):
     if case.get('kind') == 'adopt':
         return exec_adopt(ctx, case)
+    if case.get('kind') == 'createfault':
+        return exec_createfault(ctx, case)
+    if case.get('kind') == 'dangling':
+        return exec_dangling(ctx, case)
     if case.get('kind') == 'multi':
         ctx.seed = case.get('gen_seed', ctx.seed)
         run_multi(ctx, common.rng_for(ctx.seed, ID, 'multi', case['idx'] // 100,
